@@ -149,6 +149,16 @@ func init() {
 		p := int(l.Elems[2].I)
 		return &PubStruct{A: int(l.Elems[0].I), B: l.Elems[1].S, P: &p, F: l.Elems[3].F, priv: 9}
 	}
+	extraLeaf["array4-byte"] = func(l *LeafDesc) any {
+		return [4]byte{byte(l.Elems[0].I), byte(l.Elems[1].I), byte(l.Elems[2].I), byte(l.Elems[3].I)}
+	}
+	extraLeaf["slice-byte"] = func(l *LeafDesc) any {
+		out := make([]byte, len(l.Elems))
+		for i, e := range l.Elems {
+			out[i] = byte(e.I)
+		}
+		return out
+	}
 	extraLeaf["emb-struct"] = func(l *LeafDesc) any {
 		return EmbStruct{embBase: embBase{X: 3}, Name: l.Elems[0].S, Tags: []string{l.Elems[1].S, l.Elems[2].S}}
 	}
@@ -241,11 +251,17 @@ func c05Leaf(r *core.Rng) *LeafDesc {
 		return &LeafDesc{Tag: "slice-struct", Elems: []*LeafDesc{strLeaf(r), intLeaf(r), intLeaf(r), intLeaf(r), strLeaf(r), strLeaf(r)}}
 	case 14:
 		return &LeafDesc{Tag: "emb-struct", Elems: []*LeafDesc{strLeaf(r), strLeaf(r), strLeaf(r)}}
+	case 15:
+		bl := func(*core.Rng) *LeafDesc { return &LeafDesc{Tag: "uint8", I: int64(r.Intn(200))} }
+		if r.Bool() {
+			return &LeafDesc{Tag: "array4-byte", Elems: many(bl, 4)}
+		}
+		return &LeafDesc{Tag: "slice-byte", Elems: many(bl, n)}
 	}
 	return c05Prim(r)
 }
 
-var c05Gen = TreeGen{MaxDepth: 3, MaxWidth: 4, MinWidth: 1, Conds: 20, CondStackExpr: 30, CondCondExpr: 10, StackProb: 35, Leaf: c05Leaf}
+var c05Gen = TreeGen{MaxDepth: 3, MaxWidth: 4, MinWidth: 0, Conds: 20, CondStackExpr: 30, CondCondExpr: 10, StackProb: 35, Leaf: c05Leaf}
 
 // flipCase changes the case of the first letter found; ok=false if there is none.
 func flipCase(s string) (string, bool) {
@@ -356,20 +372,26 @@ func c05Sites(root *TNode) []c05Site {
 			if _, ok := flipCase(n.Kw); ok {
 				sites = append(sites, c05Site{name: path + ":keyword-case", pos: -1, apply: func() { n.Kw, _ = flipCase(n.Kw) }})
 			}
-			if n.Op.User {
+			if n.Op != nil && n.Op.User {
 				if _, ok := flipCase(n.Op.Txt); ok {
 					sites = append(sites, c05Site{name: path + ":operator-case", pos: -1, apply: func() { n.Op.Txt, _ = flipCase(n.Op.Txt) }})
 				}
 			}
-			sites = append(sites, c05Site{name: path + ":operator", pos: -1, apply: func() {
+			if n.Op == nil {
+				// an operator-less Condition against the same Condition WITH an operator
+				sites = append(sites, c05Site{name: path + ":operator-added", pos: -1, apply: func() { n.Op = &OpDesc{Code: 1} }})
+			} else {
+				sites = append(sites, c05Site{name: path + ":operator", pos: -1, apply: func() {
+					if n.Op.User {
+						n.Op.Txt += "="
+					} else {
+						n.Op.Code = n.Op.Code%6 + 1
+					}
+				}})
+				sites = append(sites, c05Site{name: path + ":operator-removed", pos: -1, apply: func() { n.Op = nil }})
 				if n.Op.User {
-					n.Op.Txt += "="
-				} else {
-					n.Op.Code = n.Op.Code%6 + 1
+					sites = append(sites, c05Site{name: path + ":operator-context", pos: -1, apply: func() { n.Op.Ctx += "2" }})
 				}
-			}})
-			if n.Op.User {
-				sites = append(sites, c05Site{name: path + ":operator-context", pos: -1, apply: func() { n.Op.Ctx += "2" }})
 			}
 			if n.Expr != nil {
 				visit(n.Expr, path+"/expr")
@@ -399,12 +421,20 @@ func c05Run(c *core.Ctx, idx int) {
 		if r.Chance(1, 5) {
 			base.Cap = len(base.Kids) + r.Intn(3)
 		}
+		if r.Chance(1, 6) {
+			// some Conditions never received an operator
+			base.Walk(func(n *TNode) {
+				if n.T == "cond" && r.Chance(1, 2) {
+					n.Op = nil
+				}
+			})
+		}
 		if r.Chance(1, 4) {
 			// a shared presentation symbol must not hide a difference in kind
 			sym := []string{"#", "~", "&&"}[r.Intn(3)]
 			base.Walk(func(n *TNode) {
-				if n.T == "stack" && r.Chance(2, 3) {
-					n.Sym = sym
+				if n.T == "stack" && n.Kind != "LIST" && r.Chance(2, 3) {
+					n.Sym = sym // (LIST stacks ignore symbols)
 				}
 			})
 		}
